@@ -21,7 +21,8 @@ ApplyOps(m, ops) == IF ops = <<>> THEN m ELSE ApplyOps([m EXCEPT ![Head(ops).k] 
 VARIABLES
   wals,     \* [n -> Seq(op)] for existing WAL files (n : Nat)
   cur,      \* number of the current WAL file (or 0 when none)
-  tdirs,    \* [g -> [ok: BOOL, data: map]] existing table dirs; ok = complete (meta written)
+  tdirs,    \* [g -> [ok: BOOL, broken: BOOL, data: map]] existing table dirs; ok = metadata present (complete unless broken);
+            \* broken = a RemoveAll already unlinked index / data while the metadata is still there: the table cannot be opened
   cdir,     \* compaction dir: [st: "none"|"partial"|"complete"|"flagged", inputs: Seq(gen), data: map]
   \* in-memory
   mem, imm, immWal, tables, gen, fpc, cpc, csel,
@@ -39,12 +40,12 @@ StackG(d, gs) == IF gs = <<>> THEN Empty ELSE Over(StackG(d, SubSeq(gs, 1, Len(g
 
 \* ---------- what an (intended) recovery would reconstruct from the disk alone ----------
 RecTables ==
-  LET okg == {g \in DOMAIN tdirs : tdirs[g].ok} IN
+  LET okg == {g \in DOMAIN tdirs : tdirs[g].ok /\ ~tdirs[g].broken} IN
   IF cdir.st = "flagged"
   THEN LET ins == {cdir.inputs[i] : i \in 1..Len(cdir.inputs)}
            repl == cdir.inputs[1]
            rest == okg \ ins
-       IN [g \in rest \cup {repl} |-> IF g = repl THEN [ok |-> TRUE, data |-> cdir.data] ELSE tdirs[g]]
+       IN [g \in rest \cup {repl} |-> IF g = repl THEN [ok |-> TRUE, broken |-> FALSE, data |-> cdir.data] ELSE tdirs[g]]
   ELSE [g \in okg |-> tdirs[g]]
 RecWalOps ==
   LET ns == SortedSeq(DOMAIN wals) IN
@@ -55,7 +56,17 @@ RecMap == Vis(ApplyOps(StackG(RecTables, SortedSeq(DOMAIN RecTables)), RecWalOps
 
 Allowed == IF inflight = NoOp THEN {Vis(model)}
            ELSE {Vis(model), Vis([model EXCEPT ![inflight.k] = inflight.v])}
-CrashSafe == RecMap \in Allowed
+
+\* os.RemoveAll(table directory) unlinks the files one by one in directory listing order and can be killed in between: the metadata may go
+\* first (the directory then counts as incomplete and is dropped by recovery) or another file first (metadata still there, table unreadable).
+\* A removal action may therefore take one or two steps; it stays enabled until the directory is gone.
+Without(d, g) == [x \in DOMAIN d \ {g} |-> d[x]]
+RemoveOutcomes(d, g) == {Without(d, g)} \cup (IF d[g].ok /\ ~d[g].broken
+                                              THEN {[d EXCEPT ![g].broken = TRUE], [d EXCEPT ![g].ok = FALSE]} ELSE {})
+Ins == {cdir.inputs[i] : i \in 1..Len(cdir.inputs)}
+\* a table that looks complete but misses files makes Open fail - unless a flagged compaction that lists it finishes the removal first
+OpenFails == \E g \in DOMAIN tdirs : tdirs[g].ok /\ tdirs[g].broken /\ ~(cdir.st = "flagged" /\ g \in Ins)
+CrashSafe == ~OpenFails /\ RecMap \in Allowed
 
 \* ---------- initial state: opened empty database ----------
 Init == /\ wals = (1 :> <<>>) /\ cur = 1 /\ tdirs = <<>> /\ cdir = [st |-> "none", inputs |-> <<>>, data |-> Empty]
@@ -85,7 +96,7 @@ SizeRot == /\ SizeRotate /\ mode = "run" /\ inflight = NoOp /\ wals[cur] # <<>> 
 
 \* ---------- flusher ----------
 FlushMk == /\ mode = "run" /\ fpc = "taken" /\ gen < MaxGen
-           /\ gen' = gen + 1 /\ tdirs' = tdirs @@ ((gen + 1) :> [ok |-> FALSE, data |-> imm]) /\ fpc' = "writing"
+           /\ gen' = gen + 1 /\ tdirs' = tdirs @@ ((gen + 1) :> [ok |-> FALSE, broken |-> FALSE, data |-> imm]) /\ fpc' = "writing"
            /\ UNCHANGED <<wals, cur, cdir, mem, imm, immWal, tables, cpc, csel, mode, rpc, rmem, model, nops, inflight>>
 FlushDone == /\ mode = "run" /\ fpc = "writing"
              /\ tdirs' = [tdirs EXCEPT ![gen] = [@ EXCEPT !.ok = TRUE]] /\ fpc' = "written"
@@ -111,15 +122,15 @@ CompDone == /\ mode = "run" /\ cpc = "merging" /\ cdir' = [cdir EXCEPT !.st = "c
             /\ UNCHANGED <<wals, cur, tdirs, mem, imm, immWal, tables, gen, fpc, csel, mode, rpc, rmem, model, nops, inflight>>
 CompFlag == /\ mode = "run" /\ cpc = "merged" /\ cdir' = [cdir EXCEPT !.st = "flagged"] /\ cpc' = "reflect"
             /\ UNCHANGED <<wals, cur, tdirs, mem, imm, immWal, tables, gen, fpc, csel, mode, rpc, rmem, model, nops, inflight>>
-\* reflect: remove inputs ascending (each RemoveAll abstracted to one step that makes the dir vanish), then rename
+\* reflect: remove inputs ascending (each RemoveAll one or two steps, see RemoveOutcomes), then rename
 ReflRemove == /\ mode = "run" /\ cpc = "reflect" /\ inflight = NoOp
               /\ \E g \in DOMAIN tdirs : /\ g \in {csel[i] : i \in 1..Len(csel)}
                                          /\ \A h \in DOMAIN tdirs : h \in {csel[i] : i \in 1..Len(csel)} => g <= h
-                                         /\ tdirs' = [x \in DOMAIN tdirs \ {g} |-> tdirs[x]]
+                                         /\ tdirs' \in RemoveOutcomes(tdirs, g)
               /\ UNCHANGED <<wals, cur, cdir, mem, imm, immWal, tables, gen, fpc, cpc, csel, mode, rpc, rmem, model, nops, inflight>>
 ReflRename == /\ mode = "run" /\ cpc = "reflect" /\ inflight = NoOp
               /\ \A i \in 1..Len(csel) : csel[i] \notin DOMAIN tdirs
-              /\ tdirs' = tdirs @@ (csel[1] :> [ok |-> TRUE, data |-> cdir.data])
+              /\ tdirs' = tdirs @@ (csel[1] :> [ok |-> TRUE, broken |-> FALSE, data |-> cdir.data])
               /\ cdir' = [st |-> "none", inputs |-> <<>>, data |-> Empty]
               /\ tables' = SelectSeq(tables, LAMBDA g : g = csel[1] \/ g \notin {csel[i] : i \in 1..Len(csel)})
               /\ cpc' = "idle" /\ csel' = <<>>
@@ -136,28 +147,27 @@ ReCrash == /\ mode = "rec" /\ ncrash < MaxCrash /\ ncrash' = ncrash + 1 /\ rpc' 
 RcDiscard == /\ mode = "rec" /\ rpc = "compactions" /\ cdir.st \in {"none", "partial", "complete"}
              /\ cdir' = [st |-> "none", inputs |-> <<>>, data |-> Empty] /\ rpc' = "load"
              /\ UNCHANGED <<wals, cur, tdirs, mem, imm, immWal, tables, gen, fpc, cpc, csel, mode, rmem, model, nops, inflight>>
-Ins == {cdir.inputs[i] : i \in 1..Len(cdir.inputs)}
 RcFinRemoveRepl == /\ mode = "rec" /\ rpc = "compactions" /\ cdir.st = "flagged" /\ cdir.inputs[1] \in DOMAIN tdirs
                    /\ (~RecFinishRenameFirst => \A g \in Ins : g \notin DOMAIN tdirs \/ g >= cdir.inputs[1])
-                   /\ tdirs' = [x \in DOMAIN tdirs \ {cdir.inputs[1]} |-> tdirs[x]]
+                   /\ tdirs' \in RemoveOutcomes(tdirs, cdir.inputs[1])
                    /\ UNCHANGED <<wals, cur, cdir, mem, imm, immWal, tables, gen, fpc, cpc, csel, mode, rpc, rmem, model, nops, inflight>>
 RcFinRename == /\ mode = "rec" /\ rpc = "compactions" /\ cdir.st = "flagged" /\ cdir.inputs[1] \notin DOMAIN tdirs
                /\ (~RecFinishRenameFirst => \A g \in Ins : g \notin DOMAIN tdirs)
-               /\ tdirs' = tdirs @@ (cdir.inputs[1] :> [ok |-> TRUE, data |-> cdir.data])
+               /\ tdirs' = tdirs @@ (cdir.inputs[1] :> [ok |-> TRUE, broken |-> FALSE, data |-> cdir.data])
                /\ csel' = cdir.inputs
                /\ cdir' = [st |-> "none", inputs |-> <<>>, data |-> Empty] /\ rpc' = "fininputs"
                /\ UNCHANGED <<wals, cur, mem, imm, immWal, tables, gen, fpc, cpc, mode, rmem, model, nops, inflight>>
 RcFinRemoveOther == /\ mode = "rec" /\ cdir.st = "flagged" /\ ~RecFinishRenameFirst /\ rpc = "compactions"
                     /\ \E g \in Ins \cap DOMAIN tdirs : g # cdir.inputs[1] /\ (\A h \in (Ins \cap DOMAIN tdirs) \ {cdir.inputs[1]} : g <= h)
-                          /\ tdirs' = [x \in DOMAIN tdirs \ {g} |-> tdirs[x]]
+                          /\ tdirs' \in RemoveOutcomes(tdirs, g)
                     /\ UNCHANGED <<wals, cur, cdir, mem, imm, immWal, tables, gen, fpc, cpc, csel, mode, rpc, rmem, model, nops, inflight>>
 RcFinInputs == /\ mode = "rec" /\ rpc = "fininputs"
                /\ LET left == {csel[i] : i \in 2..Len(csel)} \cap DOMAIN tdirs IN
                   IF left = {} THEN rpc' = "load" /\ csel' = <<>> /\ UNCHANGED tdirs
-                  ELSE \E g \in left : (\A h \in left : g <= h) /\ tdirs' = [x \in DOMAIN tdirs \ {g} |-> tdirs[x]] /\ UNCHANGED <<rpc, csel>>
+                  ELSE \E g \in left : (\A h \in left : g <= h) /\ tdirs' \in RemoveOutcomes(tdirs, g) /\ UNCHANGED <<rpc, csel>>
                /\ UNCHANGED <<wals, cur, cdir, mem, imm, immWal, tables, gen, fpc, cpc, mode, rmem, model, nops, inflight>>
 \* load complete tables sorted; (intended) ignore + remove incomplete ones; restore generation
-RcLoad == /\ mode = "rec" /\ rpc = "load"
+RcLoad == /\ mode = "rec" /\ rpc = "load" /\ ~OpenFails
           /\ LET okg == {g \in DOMAIN tdirs : tdirs[g].ok} IN
              /\ tdirs' = [g \in okg |-> tdirs[g]]
              /\ tables' = SortedSeq(okg)
@@ -169,7 +179,7 @@ RcReplay == /\ mode = "rec" /\ rpc = "replay"
             /\ rpc' = IF RecWalOps = <<>> THEN "rmwal" ELSE "flushmk"
             /\ UNCHANGED <<wals, cur, tdirs, cdir, mem, imm, immWal, tables, gen, fpc, cpc, csel, mode, model, nops, inflight>>
 RcFlushMk == /\ mode = "rec" /\ rpc = "flushmk" /\ gen < MaxGen
-             /\ gen' = gen + 1 /\ tdirs' = tdirs @@ ((gen + 1) :> [ok |-> FALSE, data |-> rmem]) /\ rpc' = "flushdone"
+             /\ gen' = gen + 1 /\ tdirs' = tdirs @@ ((gen + 1) :> [ok |-> FALSE, broken |-> FALSE, data |-> rmem]) /\ rpc' = "flushdone"
              /\ UNCHANGED <<wals, cur, cdir, mem, imm, immWal, tables, fpc, cpc, csel, mode, rmem, model, nops, inflight>>
 RcFlushDone == /\ mode = "rec" /\ rpc = "flushdone"
                /\ tdirs' = [tdirs EXCEPT ![gen] = [@ EXCEPT !.ok = TRUE]] /\ tables' = Append(tables, gen) /\ rpc' = "rmwal"
